@@ -135,6 +135,9 @@ func cmdVerify(args []string) int {
 		if qq.ob != nil {
 			fmt.Printf("   [%s] %s", qq.ob.Pos, qq.ob.Src)
 		}
+		if qq.cv != nil && qq.cv.Where != "" {
+			fmt.Printf("   [%s]", qq.cv.Where)
+		}
 		fmt.Println()
 		if !ok && qq.ob != nil {
 			fmt.Println("     ", strings.ReplaceAll(strings.TrimSpace(qq.result.output), "\n", "\n      "))
@@ -334,7 +337,7 @@ func cmdCheck(args []string) int {
 			case "sat", "unknown", "timeout":
 				coversOK++
 			case "unsat":
-				engineErrs = append(engineErrs, "vacuity: cover "+qq.name+" is unsatisfiable (contradictory assumptions)")
+				engineErrs = append(engineErrs, "vacuity: cover "+qq.name+" "+qq.cv.Where+" is unsatisfiable (contradictory assumptions, or a return the contract should declare `unreachable return K`)")
 			default:
 				engineErrs = append(engineErrs, "cover "+qq.name+": solver "+qq.result.status+": "+firstLine(qq.result.output))
 			}
